@@ -174,7 +174,7 @@ class Snap(object):
             return None
         if isinstance(v, M.Map):
             return {'map': {'sampler_id': v.sampler.id, 'sampler': self.u(v.sampler), 'texcoord': v.texcoord}}
-        if isinstance(v, (tuple, list)):
+        if isinstance(v, (tuple, list, numpy.ndarray)):
             try:
                 return {'num': fkeys(list(v))}
             except Exception:
